@@ -5,5 +5,203 @@ import StunVerif.Spec.Causes
 import StunVerif.Lemmas.Parse
 import StunVerif.Lemmas.Walk
 namespace StunVerif
+open Spec
+
+/-- the FINGERPRINT violations of one attribute, as `Spec.attrCauses` lists them -/
+def fpCauses (orig : Bytes) (off : Nat) (attr : RawAttr) : List PErr :=
+  if attr.ty = tyFP then
+    match fromRaw .fingerprint attr with
+    | .error e => [e]
+    | .ok (.fingerprint crc) =>
+      if Crc.crc32Bytes (fpInput orig off attr.paddedLen) ≠ crc then [.fpMismatch] else []
+    | .ok _ => []
+  else []
+
+/-- `fromRaw .fingerprint` produces a fingerprint value or an error -/
+theorem fromRaw_fingerprint_shape (attr : RawAttr) :
+    (∃ e, fromRaw .fingerprint attr = .error e) ∨
+      (∃ crc, fromRaw .fingerprint attr = .ok (.fingerprint crc)) := by
+  simp only [fromRaw, bind, Except.bind]
+  cases attr.checkTypeAndLen Kind.fingerprint.code (some 4) (some 4) with
+  | error e => exact Or.inl ⟨e, rfl⟩
+  | ok u => exact Or.inr ⟨_, rfl⟩
+
+theorem fpCheck_error_causes (orig : Bytes) (off : Nat) (attr : RawAttr) (e : PErr)
+    (h : fpCheck orig off attr = .error e) : fpCauses orig off attr = [e] := by
+  unfold fpCheck at h
+  unfold fpCauses
+  by_cases ht : attr.ty = tyFP
+  · simp only [ht, if_true] at h ⊢
+    rcases fromRaw_fingerprint_shape attr with ⟨e', he⟩ | ⟨crc, hc⟩
+    · rw [he] at h ⊢
+      simp only at h ⊢
+      injection h with h; rw [h]
+    · rw [hc] at h ⊢
+      simp only at h ⊢
+      split at h
+      · injection h with h; subst h; rename_i hne; rw [if_pos hne]
+      · cases h
+  · simp [ht] at h
+
+theorem fpCheck_ok_causes (orig : Bytes) (off : Nat) (attr : RawAttr)
+    (h : fpCheck orig off attr = .ok ()) : fpCauses orig off attr = [] := by
+  unfold fpCheck at h
+  unfold fpCauses
+  by_cases ht : attr.ty = tyFP
+  · simp only [ht, if_true] at h ⊢
+    rcases fromRaw_fingerprint_shape attr with ⟨e', he⟩ | ⟨crc, hc⟩
+    · rw [he] at h; cases h
+    · rw [hc] at h ⊢
+      simp only at h ⊢
+      split at h
+      · cases h
+      · rename_i hne; rw [if_neg hne]
+  · simp [ht]
+
+/-- the causes of an attribute that can be delimited -/
+theorem attrCauses_ok {orig data : Bytes} {off : Nat} {seen : List Nat} {attr : RawAttr}
+    (h : rawFromBytes data = .ok attr) :
+    attrCauses orig data off seen =
+      ((if ordBad seen attr.ty then [afterErr seen attr.ty] else []) ++
+        (if attr.paddedLen > data.length then
+          [.truncated (off + attr.paddedLen) (off + data.length)] else []) ++
+        fpCauses orig off attr, some attr) := by
+  unfold attrCauses
+  simp only [h]
+  rfl
+
+/-- the causes of an attribute that cannot be delimited: the one error the walk gives -/
+theorem attrCauses_error {fuel : Nat} {orig data : Bytes} {off : Nat} {seen : List Nat} {e : PErr}
+    (hne : data ≠ []) (h : rawFromBytes data = .error e) :
+    ∃ e', walk (fuel + 1) orig data off seen = .error e' ∧
+      attrCauses orig data off seen = ([e'], none) := by
+  have hne' : data.isEmpty = false := by simpa using hne
+  unfold attrCauses
+  rw [walk]
+  simp only [hne', Bool.false_eq_true, if_false, h]
+  cases e <;> exact ⟨_, rfl, rfl⟩
+
+theorem walkCauses_nil (fuel : Nat) (orig : Bytes) (off : Nat) (seen : List Nat) :
+    walkCauses fuel orig [] off seen = [] := by
+  cases fuel <;> simp [walkCauses]
+
+/-- the walk and the list of causes, with enough fuel: the error is a listed cause, and acceptance
+    is the empty list -/
+theorem walk_causes (fuel : Nat) : ∀ (orig data : Bytes) (off : Nat) (seen : List Nat),
+    data.length ≤ fuel →
+    (∀ e, walk fuel orig data off seen = .error e → e ∈ walkCauses fuel orig data off seen) ∧
+    (walk fuel orig data off seen = .ok () ↔ walkCauses fuel orig data off seen = []) := by
+  induction fuel with
+  | zero =>
+    intro orig data off seen hl
+    have : data = [] := List.length_eq_zero_iff.mp (by omega)
+    subst this
+    simp [walk, walkCauses]
+  | succ fuel ih =>
+    intro orig data off seen hl
+    by_cases hne : data = []
+    · subst hne
+      rw [walk_nil, walkCauses_nil]
+      simp
+    · have hne' : data.isEmpty = false := by simpa using hne
+      cases hr : rawFromBytes data with
+      | error e =>
+        obtain ⟨e', hw, hc⟩ := attrCauses_error (fuel := fuel) (orig := orig) (off := off)
+          (seen := seen) hne hr
+        have hwc : walkCauses (fuel + 1) orig data off seen = [e'] := by
+          rw [walkCauses]
+          simp only [hne', Bool.false_eq_true, if_false, hc]
+        rw [hw, hwc]
+        constructor
+        · intro e he; injection he with he; subst he; simp
+        · constructor
+          · intro h; cases h
+          · intro h; cases h
+      | ok attr =>
+        rw [walk_step hne hr]
+        have hwc : walkCauses (fuel + 1) orig data off seen =
+            match ((if ordBad seen attr.ty then [afterErr seen attr.ty] else []) ++
+              (if attr.paddedLen > data.length then
+                [PErr.truncated (off + attr.paddedLen) (off + data.length)] else []) ++
+              fpCauses orig off attr) with
+            | c :: cs => c :: cs
+            | [] => walkCauses fuel orig (data.drop attr.paddedLen) (off + attr.paddedLen)
+                      (seenNext seen attr.ty) := by
+          rw [walkCauses]
+          simp only [hne', Bool.false_eq_true, if_false, attrCauses_ok hr]
+          split <;> rename_i heq
+          · simp only [Prod.mk.injEq] at heq
+            rw [heq.1]
+          · simp only [Prod.mk.injEq] at heq
+            cases heq.2
+          · simp only [Prod.mk.injEq] at heq
+            obtain ⟨h1, h2⟩ := heq
+            injection h2 with h2; subst h2
+            rw [h1]; rfl
+        rw [hwc]
+        by_cases ho : ordBad seen attr.ty = true
+        · simp [ho]
+        · by_cases hs : attr.paddedLen > data.length
+          · simp [ho, hs]
+          · simp only [ho, hs, Bool.false_eq_true, if_false, List.nil_append]
+            cases hf : fpCheck orig off attr with
+            | error e =>
+              rw [fpCheck_error_causes _ _ _ _ hf]
+              simp
+            | ok u =>
+              rw [fpCheck_ok_causes _ _ _ hf]
+              have hp := paddedLen_ge attr
+              have hpos : 0 < data.length := List.length_pos_iff.mpr hne
+              exact ih orig _ _ _ (by rw [List.length_drop]; omega)
+
+end StunVerif
+
+namespace StunVerif
+open Spec
+
+/-- the length causes of a buffer with a full header -/
+def lenCauses (b : Bytes) : List PErr :=
+  if beNat ((b.drop 2).take 2) + 20 > b.length then
+    [.truncated (beNat ((b.drop 2).take 2) + 20) b.length]
+  else if beNat ((b.drop 2).take 2) + 20 < b.length then
+    [.tooLarge (beNat ((b.drop 2).take 2) + 20) b.length]
+  else []
+
+theorem causes_short (b : Bytes) (h : b.length < 20) :
+    ∃ cs, causes b = .truncated 20 b.length :: cs := by
+  unfold causes
+  simp only [h, if_true]
+  exact ⟨_, rfl⟩
+
+/-- `Spec.causes` on a buffer of at least 20 bytes, as a decision list -/
+theorem causes_unfold (b : Bytes) (h : 20 ≤ b.length) :
+    causes b =
+      if 0x4000 ≤ beNat (b.take 2) ∨ (b.drop 4).take 4 ≠ [0x21, 0x12, 0xA4, 0x42] then
+        .notStun :: lenCauses b
+      else if lenCauses b = [] then walkCauses b.length b (b.drop 20) 20 []
+      else lenCauses b := by
+  obtain ⟨t0, t1, l0, l1, c0, c1, c2, c3, rest, rfl, hr⟩ := split20 b h
+  have hl : ¬ ((t0 :: t1 :: l0 :: l1 :: c0 :: c1 :: c2 :: c3 :: rest).length < 20) := by
+    simp; omega
+  have h8 : 8 ≤ (t0 :: t1 :: l0 :: l1 :: c0 :: c1 :: c2 :: c3 :: rest).length := by
+    simp
+  unfold causes lenCauses
+  simp only [if_neg hl, h8, decide_true, Bool.true_and]
+  simp only [List.take_succ_cons, List.take_zero, List.drop_succ_cons, List.drop_zero, beNat_two]
+  have hcb : cookieBytes = [0x21, 0x12, 0xA4, 0x42] := rfl
+  rw [hcb]
+  generalize (t0 :: t1 :: l0 :: l1 :: c0 :: c1 :: c2 :: c3 :: rest).length = n
+  generalize walkCauses n _ _ _ _ = w
+  by_cases h1 : be16 t0 t1 ≥ 0x4000
+  · simp [h1]
+  · by_cases h2 : [c0, c1, c2, c3] = ([0x21, 0x12, 0xA4, 0x42] : Bytes)
+    · simp only [h1, h2, ne_eq, not_true, decide_false, Bool.or_false, Bool.false_eq_true,
+        if_false, List.nil_append, false_or]
+      by_cases h3 : be16 l0 l1 + 20 > n
+      · simp [h3]
+      · by_cases h4 : be16 l0 l1 + 20 < n
+        · simp [h3, h4]
+        · simp [h3, h4]
+    · simp [h1, h2]
 
 end StunVerif
